@@ -246,6 +246,18 @@ def handleEng (st : DState) (toks : List String) : Option (DState × String) :=
     match k.toNat?, n.toNat? with
     | some kk, some nn => some ({ st with pendingCrash := some (kk, nn) }, "ok")
     | _, _ => some (st, "bad-op")
+  | "eng" :: "B" :: rest =>
+    -- an operation addressed to the second instance of the process
+    match parseEngOp st rest with
+    | some op0 =>
+      let (p, o) := Eng.step st.cfg st.proc (.onB op0)
+      let q := Eng.fires st.cfg st.proc (.onB op0)
+      let pre := if q.isEmpty then "" else "#quirk " ++ ",".intercalate q ++ "\n"
+      let txt := pre ++ match op0, o with
+        | .bread _ _ _ (some _), .entries ps => "[" ++ ",".intercalate (ps.map fun (p, tr) => fmtDigest p tr) ++ "]"
+        | _, _ => fmtOut o
+      some ({ st with proc := p, tainted := st.tainted || !q.isEmpty }, txt)
+    | none => some (st, "bad-op")
   | "eng" :: rest =>
     match parseEngOp st rest with
     | some op0 =>
